@@ -1,6 +1,9 @@
 package choquet
 
-import "math"
+import (
+	"fmt"
+	"math"
+)
 
 func PowerSet(original []string) *[][]string {
 	powerSetSize := PowerSetSize(len(original))
@@ -28,4 +31,26 @@ func PowerSetSize(elements int) int {
 		return 0
 	}
 	return int(math.Pow(2, float64(elements)))
+}
+
+// maxEnumerableElements bounds the sets whose subsets can be indexed by an int.
+const maxEnumerableElements = 62
+
+// ForEachSubset calls visit with every non-empty subset of original, in the order of PowerSet, without
+// materialising the power set: a caller that stops (panics) at the first unsuitable subset does work
+// proportional to the subsets it has seen, not to 2^len(original).
+func ForEachSubset(original []string, visit func(subSet []string)) {
+	if len(original) > maxEnumerableElements {
+		panic(fmt.Errorf("cannot enumerate the subsets of %d elements", len(original)))
+	}
+	powerSetSize := PowerSetSize(len(original))
+	for index := 1; index < powerSetSize; index++ {
+		var subSet []string
+		for j, elem := range original {
+			if index&(1<<uint(j)) > 0 {
+				subSet = append(subSet, elem)
+			}
+		}
+		visit(subSet)
+	}
 }
